@@ -2,6 +2,7 @@ import CotengraVerif.Driver.Util
 import CotengraVerif.Model.Path
 import CotengraVerif.Model.Processor
 import CotengraVerif.Model.Partition
+import CotengraVerif.Model.BestSoFar
 
 namespace Cotengra.Driver.C05
 open Lean Cotengra Cotengra.Driver Cotengra.Path
@@ -101,9 +102,31 @@ def agglomOp : Handler := fun j => do
   | none => pure (jObj [("result", jStr "no-termination")])
   | some k => pure (jObj [("result", jStr "ok"), ("left", jNat k)])
 
+def foundOf (j : Json) : Except String BestSoFar.Found := do
+  pure ⟨← natListList (← field j "path"), ← natOf (← field j "flops")⟩
+
+def jOptPath : Option Path → Json
+  | none => Json.null
+  | some p => jNatss p
+
+def jOptNat : Option Nat → Json
+  | none => Json.null
+  | some n => jNat n
+
+/-- op `c05.best_so_far`: the answers (and, for the shared instance, the states after every call)
+    of a preset binding over a sequence of inner results -/
+def bestSoFarOp : Handler := fun j => do
+  let qs ← (← arrOf (← field j "found")).mapM foundOf
+  let shared ← (fieldD j "shared" (jBool true)).getBool?
+  let b : BestSoFar.Binding := if shared then .sharedInstance else .freshPerCall
+  let states := if shared then BestSoFar.sharedStates BestSoFar.init qs else []
+  pure (jObj [("answers", jArr ((BestSoFar.answers b qs).map jOptPath)),
+              ("states", jArr (states.map fun s =>
+                jObj [("best", jOptPath s.bestPath), ("flops", jOptNat s.bestFlops)]))])
+
 def handlers : List (String × Handler) :=
   [("c05.check_linear", checkLinearOp), ("c05.check_ssa", checkSSAOp), ("c05.check_tree", checkTreeOp),
    ("c05.from_path", fromPathOp), ("c05.processor", processorOp), ("c05.separate", separateOp),
-   ("c05.kahypar_shortcuts", kahyparOp), ("c05.agglom", agglomOp)]
+   ("c05.kahypar_shortcuts", kahyparOp), ("c05.agglom", agglomOp), ("c05.best_so_far", bestSoFarOp)]
 
 end Cotengra.Driver.C05
